@@ -84,18 +84,18 @@ Example C01_nonvacuous :
 Proof. vm_compute. repeat split; reflexivity. Qed.
 
 (* the knapsack (PRIMAL_DUAL welfare maximiser) model: feasible, contains the initial allocation
-   (and optimal: property C04) for any non-negative data and any iteration order *)
+   (and optimal: property C04) for any non-negative costs, ANY rational scores and any iteration order *)
 From PB Require Model.MaxWelfare Props.C04.
 
 Theorem C01_maxwelfare_pd_feasible : forall (I : inst) (score : list Q) (enum init : list proj),
-  Forall (fun c => 0 <= c) (costs I) -> Forall (fun s => 0 <= s) score ->
+  Forall (fun c => 0 <= c) (costs I) ->
   NoDup enum -> (forall p, In p enum <-> (p < nproj I)%nat) ->
   NoDup init -> incl init enum -> tcost I init <= budget I ->
   exists res, MaxWelfare.maxwelfare_pd I score enum init = Some res /\
     feasible I res /\ incl init res.
 Proof.
-  intros I score enum init H1 H2 H3 H4 H5 H6 H7.
-  destruct (C04.C04_maxwelfare_pd_optimal I score enum init H1 H2 H3 H4 H5 H6 H7) as [res [E [F [G _]]]].
+  intros I score enum init H1 H3 H4 H5 H6 H7.
+  destruct (C04.C04_maxwelfare_pd_optimal_any_scores I score enum init H1 H3 H4 H5 H6 H7) as [res [E [F [G _]]]].
   exists res. exact (conj E (conj F G)).
 Qed.
 Print Assumptions C01_maxwelfare_pd_feasible.
